@@ -452,6 +452,12 @@ def rule_port_widths(run):
     # ... and the declared (root) kind of the actual is the port's kind: the port map names the root object or a slice of
     # it, whose VHDL type is the root's - a typed view (.unsigned of a BitVector) or a slice of an Unsigned is not converted
     rootvars = {a.targets[0].id for a in ast.walk(br[0]) if isinstance(a, ast.Assign) and isinstance(a.targets[0], ast.Name) and "_root" in src(a.value)}
+    # ... on every path: a variable that is bound to the VIEW's own type on some path (`value.type` for an un-sliced view) does not count
+    for rv in sorted(rootvars):
+        others = [a for a in ast.walk(br[0]) if isinstance(a, ast.Assign) and isinstance(a.targets[0], ast.Name) and a.targets[0].id == rv and "_root" not in src(a.value)
+                  and rv not in {n_.id for n_ in ast.walk(a.value) if isinstance(n_, ast.Name)}]
+        if others:
+            rootvars.discard(rv)
     kind = None
     for a in ast.walk(br[0]):
         if isinstance(a, ast.Assert):
